@@ -118,6 +118,86 @@ SY = [[ZERO, Q2(0, -1)], [IM, ZERO]]
 DIAG = [[ONE, ZERO], [ZERO, Q2(-1)]]
 
 
+def _strip_wrappers(t):
+    """peel trunc / unsq / long-like wrappers off a single-atom term"""
+    while t is not None:
+        a = t.single_atom()
+        if isinstance(a, T.App) and a.op in ("trunc", "unsq", "floor") and a.args and hasattr(a.args[0], "terms"):
+            t = a.args[0]
+            continue
+        return t
+    return t
+
+
+def _complementary(r, s):
+    """the site sets r and s are nonzero(<cond>) of complementary element-wise tests of the same operands"""
+    ra, sa = (x.single_atom() if x is not None else None for x in (r, s))
+    if not (isinstance(ra, T.App) and isinstance(sa, T.App) and ra.op == sa.op == "nonzero"):
+        return False
+    ca, cb = (x.args[0].single_atom() if hasattr(x.args[0], "single_atom") else None for x in (ra, sa))
+    if not (isinstance(ca, T.App) and isinstance(cb, T.App)):
+        return False
+    return {ca.op, cb.op} == {"cmp_Eq", "cmp_NotEq"} and ca.args == cb.args
+
+
+def index_table_verdict(idx, vterm, nsites):
+    """Are the entries read from an explicitly given psi / rho those at the Hilbert-space indices of the expanded states `vterm`?
+    index(v) = sum over the sites j of v[..., j] * 2^(n-1-j).  Accepted: the whole-row form matmul(v, w) (the weights w of the
+    converter are C19.R1's subject), or a sum of parts matmul(<columns of the states / the written bit table>, w_part) over a
+    partition of the sites, each with w_part = 2^(n-1-<those sites>).  (True, None) / (False, why) / (None, why)."""
+    if idx is None or vterm is None:
+        return None, "index table or expanded states not followed"
+    whole = _strip_wrappers(idx)
+    wa = whole.single_atom() if whole is not None else None
+    if isinstance(wa, T.App) and wa.op == "matmul" and wa.args[0] == vterm:
+        return True, None
+    va = vterm.single_atom()
+    if not (isinstance(va, T.App) and va.op == "upd"):
+        return None, "expanded states are not an overwrite of some sites of the repeated states"
+    spec, written = va.args[1], _strip_wrappers(va.args[2])
+    rot = [x[1] for x in spec if isinstance(x, (tuple, list)) and len(x) == 2 and x[0] == "adv"]
+    if len(rot) != 1:
+        return None, "written sites not one index array"
+    rot = rot[0]
+    parts = []
+    for mono, c in idx.terms.items():
+        if c != 1 or len(mono) != 1 or mono[0][1] != 1:
+            return None, "index table is not a plain sum of parts"
+        pa = _strip_wrappers(T.P(mono[0][0])).single_atom()
+        if not (isinstance(pa, T.App) and pa.op == "matmul"):
+            return None, "a part of the index table is not <columns> . <weights>"
+        parts.append((pa.args[0], pa.args[1]))
+    if len(parts) != 2:
+        return None, "%d parts" % len(parts)
+    seen = {}
+    for cols, w in parts:
+        ca = cols.single_atom()
+        if cols == written:
+            sites, what = rot, "rotated"
+        elif isinstance(ca, T.App) and ca.op == "index" and ca.args[0] == T.sym("states"):
+            sel = [x[1] for x in ca.args[1] if isinstance(x, (tuple, list)) and len(x) == 2 and x[0] == "adv"]
+            if len(sel) != 1 or any(isinstance(x, (tuple, list)) and x and x[0] == "slice" and tuple(x[1:]) != (None, None, None) for x in ca.args[1]):
+                return None, "column selection of the states not recognised"
+            sites, what = sel[0], "kept"
+        else:
+            return None, "columns %r are neither the written bits nor columns of the states" % (cols,)
+        seen[what] = (sites, w)
+    if set(seen) != {"rotated", "kept"} or seen["rotated"][0] != rot or not _complementary(rot, seen["kept"][0]):
+        return None, "the parts do not visibly partition the sites into the rotated and the other ones"
+    for what, (sites, w) in seen.items():
+        want = T.app("pow", T.const(2), nsites - 1 - sites)
+        if w == want:
+            continue
+        wa_ = w.single_atom()
+        if isinstance(wa_, T.App) and wa_.op == "pow" and wa_.args[0] == T.const(2) and hasattr(wa_.args[1], "all_atoms"):
+            sa_ = sites.single_atom()
+            if sa_ not in set(wa_.args[1].all_atoms()):
+                return False, ("the %s sites enter the index with weights %r, which do not depend on where those sites are: site j of n has the place value 2^(n-1-j) "
+                               "(the entries read are those of other basis states whenever such a site is not at its compact position)" % (what, w))
+        return None, "weights %r of the %s sites not recognised (expected %r)" % (w, what, want)
+    return True, None
+
+
 def run(ck):
     prog = ck.program
     cd = prog.func(U, "create_dict")
@@ -294,13 +374,31 @@ def run(ck):
                         it_ = sp[k]
                         e_ax = None
                         if isinstance(it_, tuple) and it_[0] == "adv":
-                            a = it_[1].single_atom()
-                            if a is not None and isinstance(a, T.App) and a.op == "unsq" and a.args[2] == 3:
-                                ppos = a.args[1] + a.args[2]
-                                e_ax = 0 if ppos >= 1 else 1  # where the expansion axis of idx (E, B) lands
-                                if ppos == 2:
-                                    e_ax = None
+                            # (a table that is a sum of parts is spread part by part: every part the same way)
+                            parts_ = [m_[0][0] for m_, c_ in it_[1].terms.items() if c_ == 1 and len(m_) == 1 and m_[0][1] == 1] if hasattr(it_[1], "terms") else []
+                            found = set()
+                            for a in parts_ if len(parts_) == len(getattr(it_[1], "terms", ())) else []:
+                                if isinstance(a, T.App) and a.op == "unsq" and a.args[2] == 3:
+                                    ppos = a.args[1] + a.args[2]
+                                    found.add(None if ppos == 2 else (0 if ppos >= 1 else 1))  # where the expansion axis of idx (E, B) lands
+                                else:
+                                    found.add(None)
+                            if len(found) == 1:
+                                e_ax = found.pop()
                         pos.append(e_ax)
+                    # (the table itself, before it is spread over the row / column axis)
+                    for k in (1, 2):
+                        it_ = sp[k]
+                        if isinstance(it_, tuple) and it_[0] == "adv":
+                            tab = it_[1]
+                            outer_ = [m_[0][0] for m_, c_ in tab.terms.items() if c_ == 1 and len(m_) == 1 and m_[0][1] == 1]
+                            if outer_ and len(outer_) == len(tab.terms) and all(isinstance(a, T.App) and a.op == "unsq" for a in outer_):
+                                tab = sum((a.args[0] for a in outer_), T.ZERO)
+                            rv_ = it.concrete_items(p.value)
+                            vt_ = rv_[2].term if rv_ is not None and len(rv_) == 3 and isinstance(rv_[2], VTens) else None
+                            vd, why = index_table_verdict(tab, vt_, T.sym("nv"))
+                            ck.check(vd, "C04.R2", inst + ":%s read are those of the expanded states [%s]" % ("rows" if k == 1 else "columns", pn), rrp.site(), why or "",
+                                     key="C04.R2|rotate_rho_probs|explicit index table")
                     if None in pos:
                         ck.undecided("C04.R2", inst + ":matrix [%s]" % pn, rrp.site(), "row/column index tensors not recognised: %r" % (sp,))
                         continue
@@ -356,6 +454,9 @@ def run(ck):
                     at = mt.single_atom() if mt is not None else None
                     ok = at is not None and isinstance(at, T.App) and at.op == "index" and len(at.args[1]) == 2 and at.args[1][0] == ("slice", None, None, None) and isinstance(at.args[1][1], tuple) and at.args[1][1][0] == "adv"
                     ck.check(bool(ok), "C04.R2", inst + ":psi[:, index(expanded states)] [%s]" % _c(p), rpi.site(), "explicit psi is not read at the indices of the expanded states: %r" % (mt,))
+                    if ok:
+                        vd, why = index_table_verdict(at.args[1][1][1], v.term if isinstance(v, VTens) else None, T.sym("nv"))
+                        ck.check(vd, "C04.R2", inst + ":entries read are those of the expanded states [%s]" % _c(p), rpi.site(), why or "", key="C04.R2|rotate_psi_inner_prod|explicit index table")
     # ------------------------------------------------------------------ R3 index provenance in _rotate_basis_state
     rbs = prog.func(U, "_rotate_basis_state")
     with ck.guard("C04.R3", "_rotate_basis_state", rbs.site()):
